@@ -395,7 +395,35 @@ func rich(r *rand.Rand, c RichCfg) *spec.Grammar {
 	usedLit := map[int]bool{}
 	usedNum := map[int]bool{}
 	usedName := map[string]bool{}
+	var allNames []string
+	swapCase := func(n string) string {
+		b := []rune(n)
+		for i, ch := range b {
+			switch {
+			case ch >= 'a' && ch <= 'z':
+				b[i] = ch - 32
+			case ch >= 'A' && ch <= 'Z':
+				b[i] = ch + 32
+			}
+		}
+		return string(b)
+	}
+	mkName0 := func(prefix string, i int) string { return "" }
 	mkName := func(prefix string, i int) string {
+		// names that are equal under a derived key (case folding): "sort by key, forget the tie-break" mistakes show up only then
+		if c.Names && len(allNames) > 0 && r.Intn(4) == 0 {
+			tw := swapCase(allNames[r.Intn(len(allNames))])
+			if !usedName[tw] && tw != swapCase(tw) {
+				usedName[tw] = true
+				allNames = append(allNames, tw)
+				return tw
+			}
+		}
+		n := mkName0(prefix, i)
+		allNames = append(allNames, n)
+		return n
+	}
+	mkName0 = func(prefix string, i int) string {
 		if c.Names && r.Intn(2) == 0 {
 			for k := 0; k < 10; k++ {
 				n := nameShapes[r.Intn(len(nameShapes))]
@@ -415,7 +443,7 @@ func rich(r *rand.Rand, c RichCfg) *spec.Grammar {
 		usedName[n] = true
 		return n
 	}
-	litChars := []byte("+-*/=<>()[],.!?&^~#@:;|%\"'{}$`\\")
+	litChars := []byte("+-*/=<>()[],.!?&^~#@:;|%\"'{}$`\\xXaA09zZ")
 	if !c.Names {
 		litChars = litPool
 	}
@@ -573,6 +601,32 @@ func rich(r *rand.Rand, c RichCfg) *spec.Grammar {
 			}
 			if !used {
 				g.Tokens[i].Decl = "token"
+			}
+		}
+	}
+	// hostile explicit number: just above the largest code in use, i.e. inside the
+	// range from which the automatic codes will be drawn
+	if r.Intn(2) == 0 {
+		maxv, autos := 2, len(g.NTs)
+		var named []int
+		for i, t := range g.Tokens {
+			v := t.Num
+			if t.Name == "" {
+				v = t.Lit
+			} else {
+				named = append(named, i)
+				if t.Num == 0 {
+					autos++
+				}
+			}
+			if v > maxv {
+				maxv = v
+			}
+		}
+		if len(named) > 0 {
+			ti := named[r.Intn(len(named))]
+			if g.Tokens[ti].Decl == "token" {
+				g.Tokens[ti].Num = maxv + 1 + r.Intn(autos+2)
 			}
 		}
 	}
